@@ -18,7 +18,7 @@ import c20_heap
 import c20_pipe
 
 PID = "C20"
-PROPS = ["PfModel.Props.C20", "PfModel.Props.C20Src", "PfModel.Props.C20Heap", "PfModel.Props.C20HeapSrc", "PfModel.Props.C20Slurm", "PfModel.Props.C20Pipe"]
+PROPS = ["PfModel.Props.C20", "PfModel.Props.C20Src", "PfModel.Props.C20Heap", "PfModel.Props.C20HeapSrc", "PfModel.Props.C20Slurm", "PfModel.Props.C20Pipe", "PfModel.Props.C20User"]
 GENERATED = True          # Props/C20Src.lean and Props/C20HeapSrc.lean are proved against lean/PfModel/Generated/C20*Facts.lean, regenerated from /repo on every run
 DRIVER = "C20"
 RULE = ("operations drawn from one seeded PRNG over Resources built from small integers (incl. 0 and negatives), memory strings "
